@@ -17,7 +17,7 @@ CLAIM = {
              "fed from the like-named persisted key, and in each sow_* entry the combos/cases/shuffle handed to the enumeration are must-equal to what save_info persists; (R2) the stateful Sower/Reaper callables are never swept in parallel; "
              "(R3) D-ORDER interpretation of grow() shows the written tuple aligned with the loaded batch in the sequential and the pooled branch, for every completion order; (R4) the batch-id universe of Sower, Reaper and missing_results is "
              "[1, num_batches]; (R5) all 19 crop paths use their writer's directory and template; (R6) the default pickling library is importable on some path and to_pickle / from_pickle agree on it; (R7) the enumeration is replayable across processes "
-             "(no set-order dependence, seed determined by the shuffle value alone, seed dominates shuffle); (R8) every crop file is published by write-temporary, close, rename, so no process loads a partly written file. The enumeration itself is C01. Not decided: cloudpickle fidelity for arbitrary functions."),
+             "(no set-order dependence, seed determined by the shuffle value alone, seed dominates shuffle); (R8) every crop file is published by write-temporary, close, rename, so no process loads a partly written file; (R9) Crop.load_info reads the settings file on every call (no memoised record survives a re-sow). The enumeration itself is C01. Not decided: cloudpickle fidelity for arbitrary functions."),
     "note": "Trusted base: pickle round trip of settings / batches; random.seed(k) + random.shuffle is deterministic across processes for equal k and equal list length; C01's rules for the enumeration order.",
     "technique": "static analysis: reader/writer key-table agreement, must-equality (reaching definitions) rules, D-ORDER abstract interpretation of grow(), linear-form id ranges, import feasibility by dataflow",
 }
